@@ -67,7 +67,7 @@ func runKA(c KACase) vlib.Result {
 				return
 			}
 			defer conn.Close()
-			lastSent := time.Now()  // the server armed its deadline at or after this instant
+			lastSent := time.Now()   // the server armed its deadline at or after this instant
 			lastAnswered := lastSent // ... and at or before this one
 			br := bufio.NewReader(conn)
 			var ws *vlib.WSClient
